@@ -121,9 +121,21 @@ func driveC14(o opts) error {
 			for _, h := range handlers {
 				tc.AddEventHandler(h)
 			}
-			stop := make(chan struct{})
-			defer close(stop)
-			go tc.Run(stop)
+			// the dispatcher; the client starts one per connection, so it may stop and start again while events are queued
+			var stop, done chan struct{}
+			startRun := func() {
+				stop, done = make(chan struct{}), make(chan struct{})
+				go func(stop, done chan struct{}) {
+					tc.Run(stop)
+					close(done)
+				}(stop, done)
+			}
+			stopRun := func() {
+				close(stop)
+				<-done
+			}
+			startRun()
+			defer func() { close(stop) }()
 
 			v1 := g.Chance(0.5)
 			method := "monitor_cond"
@@ -180,6 +192,12 @@ func driveC14(o opts) error {
 				err := apply()
 				if (err == nil) != expectOK {
 					fail("%s: the cache answers %v", label, err)
+				}
+				if g.Chance(0.25) {
+					// the dispatcher stops while events may still be queued and a new one takes over: nothing may be lost
+					stopRun()
+					startRun()
+					kinds["dispatcher restarted"]++
 				}
 				// wait for the dispatcher: both handlers at the expected count (or quiescent)
 				deadline := time.Now().Add(3 * time.Second)
